@@ -90,6 +90,23 @@ CLAIMS = {
                   "first offending term (canonical LR(1) property of the table, C01).",
         technique="finite-domain abstract interpretation of the driver loop + effect analysis of stream writes",
     ),
+    "C01": dict(
+        category="other",
+        text="Language equality is not decided (it is a semantic property of an algorithm). Decided, exactly and for "
+             "every grammar, are necessary conditions of a correct canonical-LR(1) construction that the suite's "
+             "grammars cannot exercise: memo tables depend on their key only and are not published early on a "
+             "recursive path (MEMO-K/P); linearised keys are injective, fit their table and agree between siblings "
+             "(INJ); scans cover their whole index space (SCAN); the items produced by closure and goto, the "
+             "FIRST/nullable scans and fixpoints, the column an item is filed under and the root item match the "
+             "canonical definitions role by role on name-insensitive canonical forms (CLOSURE, FIRSTSFX, NULLSFX, "
+             "FIXPOINT, GOTO, ADDSIT, ROOT); index spaces are not confused (IDX) and per-term/per-rule tables are "
+             "filled slot-for-slot in order (TIX). These rules found and now guard the repaired defects D1-D3.",
+        design_ref="DESIGN.md 5/C01",
+        note=TB + " Not decided: that the construction as a whole yields exactly the grammar's language. A template "
+                  "whose shape is not recognised yields exit 2 (no verdict), never a pass.",
+        technique="memo-purity / injectivity / scan-coverage analyses, role templates over canonical forms, "
+                  "units-of-measure inference for indices (custom clang plugin + rule engine)",
+    ),
 }
 
 NOT_APPLICABLE = {
